@@ -438,6 +438,10 @@ def pack_into_passes(nng, arch, verbose_packing=False):
                 if len(consumers) > 1 or (len(consumers) == 1 and consumers[0] != curr_op):
                     return False
 
+            # An operator that already has a fused activation cannot take over the activation that follows it
+            if curr_op.type in activation_ops and next_op.activation is not None:
+                return False
+
             # There cannot be any reshaping between next_op ofm and corresponding curr_op ifm
             if len(curr_op.ifm_shapes) != 0 and len(next_op.ofm_shapes) != 0:
                 if inp == curr_op.ifm and next_op.ofm_shapes[0] != curr_op.ifm_shapes[0]:
